@@ -143,9 +143,6 @@ ACCUM_METHODS = {'append', 'extend', 'insert', 'appendleft', 'extendleft', 'setd
 SEQ_CTORS = {'list', 'tuple', 'iter', 'reversed', 'deque', 'dict', 'OrderedDict'}
 FRESH_CTORS = {'list', 'dict', 'set', 'frozenset', 'deque', 'defaultdict', 'OrderedDict', 'sorted', 'tuple', 'str',
                'int', 'sum', 'TranslatorMetadata', 'bool', 'len'}
-SCALAR_FUNCS = {'len', 'isinstance', 'issubclass', 'hasattr', 'int', 'bool', 'float', 'id', 'type', 'min', 'max',
-                'any', 'all', 'abs', 'callable', 'ord', 'chr', 'hex', 'bin', 'round', 'hash', 'range', 'clog2',
-                'ceil', 'log2', 'pow'}
 TEXT_FUNCS = {'str', 'repr', 'format', 'print'}
 
 
@@ -153,7 +150,6 @@ class FuncInfo:
     def __init__(self, mod, node, cls, outer):
         self.mod, self.node, self.cls, self.outer = mod, node, cls, outer
         parts = [node.name]
-        c, o = cls, outer
         cur = parent(node)
         while cur is not None:
             if isinstance(cur, (ast.FunctionDef, ast.AsyncFunctionDef, ast.ClassDef)):
@@ -622,7 +618,7 @@ class Analysis:
         if self.readstack:
             self.readstack[-1].add(key)
 
-    def _upd(self, table, key, val, tname=None):
+    def _upd(self, table, key, val):
         old = table.get(key, O)
         new = join(old, val)
         if new != old:
@@ -865,7 +861,6 @@ class Interp:
         return None
 
     def stmt(self, st):
-        an = self.an
         if isinstance(st, (ast.FunctionDef, ast.AsyncFunctionDef, ast.ClassDef, ast.Import, ast.ImportFrom,
                            ast.Pass, ast.Break, ast.Continue, ast.Global, ast.Nonlocal)):
             return
@@ -961,18 +956,12 @@ class Interp:
     def taint_target(self, e, node, what):
         """an ordered accumulation into the object denoted by e happens (append / item store / +=).
         Outside an unordered iteration nothing happens.  Inside: fresh local -> the local becomes
-        unordered; attribute -> the field becomes unordered; anything else -> an effect (sink)."""
+        unordered (it may still be sorted before it is used); anything else -> an effect (sink)."""
         if self.ctx is None or self.quiet:
             return
         root, hops = chain_root(e)
         if isinstance(root, ast.Name) and self.fi is not None and root.id in self.fi.fresh_locals():
             self.env[root.id] = with_u(self.env.get(root.id, O))
-            return
-        lf = last_field(e)
-        if lf is not None:
-            key = field_key_of_attr(lf)
-            self.an._upd(self.an.fields, key, with_u(self.an.get_field(key)))
-            # the field is now known to be filled in hash order; consumers are judged where they iterate it
             return
         self.effect(f"{what} on `{norm(e)}` (not a local of this function)", node)
 
@@ -988,11 +977,7 @@ class Interp:
                     if kk is not None and any(k == kk for k, _ in cur[1]):
                         self.env[root.id] = ('R', tuple((k, join(x, v) if k == kk else x) for k, x in cur[1]))
                         return
-                depth = max(0, len(hops))
-                vv = v
-                for _ in range(depth):
-                    vv = C(False, vv)
-                self.env[root.id] = join_store(cur, v, depth)
+                self.env[root.id] = join_store(cur, v, len(hops))
                 return
         lf = last_field(e)
         if lf is not None:
@@ -1131,6 +1116,14 @@ class Interp:
                 for k, x in v[1]:
                     if k == kk:
                         return x
+        if u_of(v) and self.report and not self.quiet and isinstance(e.ctx, ast.Load):
+            sl = e.slice
+            if isinstance(sl, ast.UnaryOp) and isinstance(sl.op, ast.USub):
+                sl = sl.operand
+            if isinstance(sl, ast.Constant) and isinstance(sl.value, int) and not isinstance(sl.value, bool) and \
+                    isinstance(e.value, ast.Call):
+                self.an.sink(self, e, f"{norm(e)[:80]}", "selects an element of an unordered collection by position: which "
+                             "one depends on the hash seed")
         return elem_of(v)
 
     def e_Slice(self, e):
@@ -1459,6 +1452,10 @@ class Interp:
             if meth == 'get':
                 return join(elem_of(recv), pos[1] if len(pos) > 1 else O)
             if meth in ('pop', 'popleft'):
+                if meth == 'pop' and not pos and u_of(recv) and self.report and not self.quiet and not (
+                        isinstance(f.value, ast.Name) and self.fi is not None and f.value.id in self.fi.fresh_locals()):
+                    an.sink(self, call, f"{norm(f)}()", "takes an arbitrary element of an unordered collection: which one "
+                            "depends on the hash seed")
                 return elem_of(recv)
             if meth == 'sort':
                 self.strong_sort(f.value)
@@ -1500,6 +1497,12 @@ class Interp:
                 self.effect(f"`{name}()`", call)
             if base in ('copy', 'deepcopy'):
                 return a0
+            if any(u_of(x) for x in pos):
+                # an external helper (itertools.chain, ...) handed an unordered collection: assume it keeps the order
+                ev = O
+                for x in pos:
+                    ev = join(ev, elem_of(x))
+                return C(True, ev)
             return O
         if name in ('set', 'frozenset'):
             return C(True, elem_of(a0))
@@ -1535,6 +1538,9 @@ class Interp:
                 an.sink(self, call, f"reduce over `{norm(args[1])[:60]}`", "folds an unordered collection")
             return O
         if name in ('next',):
+            if pos and u_of(a0) and self.report and not self.quiet:
+                an.sink(self, call, f"next({norm(args[0])[:60]})", "takes the first element of an unordered collection: "
+                        "which one depends on the hash seed")
             return elem_of(a0)
         if name == 'getattr':
             v = O
